@@ -3,6 +3,7 @@ import GixModel.Model.C06Core
 import GixModel.Model.C06b
 import GixModel.Model.C06m
 import GixModel.Model.C06e
+import GixModel.Model.C06f
 import GixModel.Model.C02
 import GixModel.Model.C05
 import GixModel.Model.C14
@@ -390,8 +391,8 @@ def obsOpt {α : Type} : Option α → String
 def trivialModel : List String :=
   ["config-file", "config-color", "config-path",
    "attributes", "ignore", "pkt-sideband",
-   "handshake", "ls-refs", "fetch-v1", "fetch-v2", "url",
-   "refspec-fetch", "refspec-push", "revspec", "pathspec", "date"]
+   "handshake", "ls-refs", "fetch-v1", "fetch-v2",
+   "refspec-push", "revspec", "pathspec", "date"]
 
 /-- entry points with a model (of another property) that has explicit panic outcomes and a
 theorem that they are unreachable, but whose inputs/outputs are not compared line by line here -/
@@ -438,6 +439,8 @@ def handle? : List String → Option String
     if trivialModel.contains ep || weakModel.contains ep then some "nopanic"
     else match ep with
     | "loose-header" => some (obs (looseHeader bs))
+    | "refspec-fetch" => some (obs (refspecFetch bs))
+    | "url" => some (match urlSites bs with | .panic => "panic" | .hang => "hang" | _ => "nopanic")
     | "midx" => some (match midxOpen (fun p q => C19.cmpBytes p q == .lt) bs with
         | none => "panic" | some false => "err" | some true => "ok")
     | "mailmap" => some (
